@@ -1,15 +1,155 @@
 """Implementation driver for C05/C13 value hashing: runs dds.fun_args.dds_hash from /repo on encoded values.
-stdin: {"cases":[{"v":<enc>,"max":<int|null|"default">}...]}  ->  @@RESULT@@[...]"""
+stdin: {"cases":[{"v":<enc>,"max":<int|null|"default">}...]}  ->  @@RESULT@@[...]
+Values with one extra trailing element (see harness/c05_decl.py) are instances of DECLARED classes: dataclasses
+written as source text and exec'ed, namedtuples, subclasses of the builtin types, dict subclasses, enum members."""
+import collections
+import copy
 import dataclasses
 import datetime
+import enum
 import json
+import struct
 import sys
+import typing
 from collections import OrderedDict
 from pathlib import PurePosixPath
 
 
+class ViewMismatch(Exception):
+    """The harness's expectation of dataclasses.fields() / values disagrees with plain Python (a harness error)."""
+
+
+def mangle(cname, n):
+    if n.startswith("__") and not n.endswith("__") and cname.lstrip("_"):
+        return "_" + cname.lstrip("_") + n
+    return n
+
+
+def class_source(decl, consts):
+    """Source text of the chain of dataclasses of a declaration; constants go through the list `consts` (_v[i])."""
+    def const(e, fresh=False):
+        consts.append(build(e))
+        return ("copy.deepcopy(_v[%d])" if fresh else "_v[%d]") % (len(consts) - 1)
+
+    lines, prev, ivars, kinds = [], None, [], {}
+    for ci, c in enumerate(decl["classes"]):
+        lines.append("@dataclasses.dataclass(%s)" % ", ".join("%s=%r" % kv for kv in sorted(c["params"].items())))
+        lines.append("class %s%s:" % (c["name"], "(%s)" % prev if prev else ""))
+        body = []
+        for m in c["members"]:
+            n, k, d = m["n"], m["k"], m.get("default")
+            if k == "method":
+                body.append("def %s(self):\n        return 1" % n)
+            elif k == "property":
+                body.append("@property\n    def %s(self):\n        return 2" % n)
+            elif k == "attr":
+                body.append("%s = %s" % (n, const(d[1])))
+            elif k == "classvar":
+                body.append("%s: ClassVar[object] = %s" % (n, const(d[1])))
+            elif k == "initvar":
+                body.append("%s: InitVar[object]" % n + (" = %s" % const(d[1]) if d is not None else ""))
+                if mangle(c["name"], n) not in ivars:
+                    ivars.append(mangle(c["name"], n))
+                kinds[mangle(c["name"], n)] = k
+            else:
+                opts = ["%s=%r" % (f, m[f]) for (f, dv) in (("init", True), ("compare", True), ("repr", True), ("hash", None),
+                                                           ("kw_only", False)) if m.get(f, dv) != dv]
+                if d is not None and d[0] == "f":
+                    opts.insert(0, "default_factory=lambda: %s" % const(d[1], fresh=True))
+                elif d is not None and opts:
+                    opts.insert(0, "default=%s" % const(d[1]))
+                if opts:
+                    body.append("%s: object = field(%s)" % (n, ", ".join(opts)))
+                else:
+                    body.append("%s: object" % n + (" = %s" % const(d[1]) if d is not None else ""))
+                kinds[mangle(c["name"], n)] = k
+        if ci == len(decl["classes"]) - 1 and (ivars or decl.get("post")):
+            body.append("def __post_init__(self%s):" % "".join(", " + v for v in ivars))
+            for (t, src) in decl.get("post", []):
+                if src[0] == "const":
+                    rhs = const(src[1], fresh=True)
+                else:
+                    rhs = src[1] if kinds.get(src[1]) == "initvar" else "getattr(self, %r)" % src[1]
+                body.append("    object.__setattr__(self, %r, %s)" % (t, rhs))
+            body.append("    pass")
+        lines += ["    " + b for b in (body or ["pass"])]
+        lines.append("")
+        prev = c["name"]
+    return "\n".join(lines)
+
+
+def same(a, b):
+    """Structural equality of two separately built values (classes are re-created by every build: compared by name
+    and fields; floats by their bits)."""
+    if dataclasses.is_dataclass(a) and dataclasses.is_dataclass(b) and not isinstance(a, type):
+        fa, fb = dataclasses.fields(a), dataclasses.fields(b)
+        return (type(a).__name__ == type(b).__name__ and [f.name for f in fa] == [f.name for f in fb]
+                and all(same(getattr(a, f.name), getattr(b, f.name)) for f in fa))
+    if type(a).__name__ != type(b).__name__:
+        return False
+    if isinstance(a, float):
+        return struct.pack("!d", a) == struct.pack("!d", b)
+    if isinstance(a, (list, tuple)):
+        return len(a) == len(b) and all(same(x, y) for (x, y) in zip(a, b))
+    if isinstance(a, dict):
+        return len(a) == len(b) and all(same(k1, k2) and same(v1, v2) for ((k1, v1), (k2, v2)) in zip(a.items(), b.items()))
+    if isinstance(a, (int, str, bytes, PurePosixPath, datetime.date, datetime.time, datetime.timedelta, datetime.tzinfo)):
+        return a == b
+    return True
+
+
+def build_dataclass(e):
+    decl = e[3]
+    consts = []
+    src = class_source(decl, consts)
+    ns = {"dataclasses": dataclasses, "field": dataclasses.field, "InitVar": dataclasses.InitVar, "ClassVar": typing.ClassVar,
+          "copy": copy, "_v": consts}
+    exec(compile(src, "<declared %s>" % e[1], "exec"), ns)
+    obj = ns[e[1]](**dict((n, build(v)) for (n, v) in decl["args"]))
+    for (n, v) in decl.get("set", []) + decl.get("attrs", []):
+        object.__setattr__(obj, n, build(v))
+    # the expectation of the harness (e[2]) against plain Python: fields(), getattr, asdict
+    unset = decl.get("unset", [])
+    plain = [(f.name, getattr(obj, f.name)) for f in dataclasses.fields(obj) if f.name not in unset]
+    if [n for (n, _) in plain] != [n for (n, _) in e[2]]:
+        raise ViewMismatch("fields %r expected %r\n%s" % ([n for (n, _) in plain], [n for (n, _) in e[2]], src))
+    for (n, v), (_, ev) in zip(plain, e[2]):
+        if not same(v, build(ev)):
+            raise ViewMismatch("field %s = %r expected %r\n%s" % (n, v, ev, src))
+    if not unset:
+        try:
+            keys = list(dataclasses.asdict(obj).keys())
+        except Exception:
+            keys = None
+        if keys is not None and keys != [n for (n, _) in e[2]]:
+            raise ViewMismatch("asdict keys %r expected %r" % (keys, [n for (n, _) in e[2]]))
+    return obj
+
+
+def build_decorated(e, x):
+    """x = e[-1]: how the plain value of e is dressed (namedtuple, subclass, dict class, enum member)."""
+    base = build(e[:2])
+    if "nt" in x:
+        return collections.namedtuple(x["nt"], x["names"])(*base)
+    if "cls" in x:
+        d = collections.defaultdict(list) if x["cls"] == "defaultdict" else collections.Counter()
+        dict.update(d, base)
+        return d
+    if "enum" in x:
+        if isinstance(base, int):
+            return enum.IntEnum("IE", {"A": base, "B": base + 1}).A
+        return enum.Enum("SE", {"A": base, "B": base + "_"}, type=str).A
+    if "sub" in x:
+        return type("Sub" + type(base).__name__, (type(base),), {})(base)
+    raise ValueError(x)
+
+
 def build(e):
     t = e[0]
+    if t == "data" and len(e) > 3:
+        return build_dataclass(e)
+    if len(e) > 2 and isinstance(e[-1], dict):
+        return build_decorated(e, e[-1])
     if t == "none":
         return None
     if t == "bool":
@@ -40,6 +180,8 @@ def build(e):
         from dds.structures import CanonicalPath
         return CanonicalPath(PurePosixPath(e[1]))
     if t == "other":
+        if e[1] == "enum":
+            return enum.Enum("E", {"A": 1, "B": 2}).A
         return {"bytes": b"x", "set": {1}, "object": object(), "complex": 1j, "frozenset": frozenset([1]),
                 "bytearray": bytearray(b"x"), "range": range(3)}[e[1]]
     raise ValueError(t)
@@ -70,7 +212,7 @@ def main():
         try:
             v = build(c["v"])
         except Exception as ex:
-            res.append({"r": "build-error", "exc": repr(ex)})
+            res.append({"r": "build-error", "exc": repr(ex)[:2000]})
             continue
         if c["v"][0] in ("dict", "odict") and len(v) != len(c["v"][1]):
             res.append({"r": "skip"})
